@@ -173,3 +173,16 @@ V("c05-silent-solve", "C05", "silent", ND, "mean = mean_y + cov_yx @ np.linalg.i
 V("c05-silent-transposed-block", "C05", "silent", ND, "covariance = cov_y - cov_yx @ np.linalg.inv(cov_x) @ cov_xy", "covariance = cov_y - cov_yx @ np.linalg.inv(cov_x) @ cov_yx.T", what="C_XY as C_YX^T (symmetric covariance)")
 V("c05-silent-direct-index", "C05", "silent", ND, "cov_x = utils.matrix_block(self.covariance, X, X)", "cov_x = self.covariance[:, X][X, :]", what="direct chained indexing for matrix_block")
 V("c05-silent-guard-spelling", "C05", "silent", ND, "if len(set(Y) & set(X)) > 0:", "if set(X) & set(Y) != set():", what="equivalent overlap test")
+
+# ------------------------------------------------------------------------------- C06
+V("c06-coefs-wrong-rhs", "C06", "fire", ND, "cov_y_xs = self.covariance[y, Xs]  #", "cov_y_xs = self.covariance[Xs[0], Xs]  #", rule="FORMULA.coefs", what="right-hand side is not C_Sy")
+V("c06-coefs-written-everywhere", "C06", "fire", ND, "            coefs[Xs] = np.linalg.solve(cov_xs, cov_y_xs)", "            coefs[:len(Xs)] = np.linalg.solve(cov_xs, cov_y_xs)", rule="WRITESET", what="coefficients written at positions 0..|S|-1")
+V("c06-coefs-base-ones", "C06", "fire", ND, "        coefs = np.zeros(self.p)\n", "        coefs = np.ones(self.p)\n", rule="WRITESET", what="coefficients outside S not zero")
+V("c06-intercept-plus", "C06", "fire", ND, "intercept = self.mean[y] - coefs @ self.mean", "intercept = self.mean[y] + coefs @ self.mean", rule="FORMULA.intercept", what="intercept sign")
+V("c06-intercept-no-mean-y", "C06", "fire", ND, "intercept = self.mean[y] - coefs @ self.mean", "intercept = - coefs @ self.mean", rule="FORMULA.intercept", what="mu_y dropped")
+V("c06-mse-factor", "C06", "fire", ND, "- 2 * cov[y, :] @ coefs_xs.T", "- cov[y, :] @ coefs_xs.T", rule="FORMULA.mse", what="cross term not doubled")
+V("c06-mse-adds-intercept", "C06", "fire", ND, "        (coefs_xs, _) = self.regress(y, Xs)\n", "        (coefs_xs, icpt) = self.regress(y, Xs)\n        var_y = var_y + (self.mean[y] - coefs_xs @ self.mean - icpt) ** 2\n", rule=None, what="mse depends on the means", accept_inconclusive=True)
+V("c06-mse-other-target", "C06", "fire", ND, "        (coefs_xs, _) = self.regress(y, Xs)\n", "        (coefs_xs, _) = self.regress(Xs[0] if len(np.atleast_1d(Xs)) else y, Xs)\n", rule="MSE.regress", what="regresses another variable", accept_inconclusive=True)
+V("c06-silent-inv", "C06", "silent", ND, "coefs[Xs] = np.linalg.solve(cov_xs, cov_y_xs)", "coefs[Xs] = np.linalg.inv(cov_xs) @ cov_y_xs", what="inv @ for solve")
+V("c06-silent-matrix-block", "C06", "silent", ND, "cov_xs = self.covariance[:, Xs][Xs, :]  #", "cov_xs = utils.matrix_block(self.covariance, Xs, Xs)  #", what="helper for chained indexing", )
+V("c06-silent-dot", "C06", "silent", ND, "intercept = self.mean[y] - coefs @ self.mean", "intercept = self.mean[y] - self.mean.dot(coefs)", what="dot for @, commuted 1-D product")
